@@ -72,6 +72,8 @@ def _run_one(args):
         vio = sorted(set(l.strip().split("|")[0].replace("violation ", "") for l in r.stdout.splitlines()
                          if l.strip().startswith("violation ")))
         if kind == "benign":
+            if r.returncode == 2 and prop in v.get("inconclusive_ok", []) and "VIOLATION" not in r.stdout:
+                return kind, vid, "documented-inconclusive", "rc=2 (documented limit: %s)" % v.get("limit", "")[:120]
             return kind, vid, ("silent" if r.returncode == 0 else "NOT-SILENT"), "rc=%d %s" % (r.returncode, vio)
         if kind == "mutant":
             hit = r.returncode == 1 and all(e in vio for e in expect)
